@@ -703,7 +703,7 @@ class Workflow(PersistableEntity):
                 strict=True,
             )
         }
-        workflow.input_ports = params["input_ports"]
+        workflow.input_ports = params.get("input_ports", {})
         workflow.output_ports = params["output_ports"]
         rows = await loading_context.database.get_workflow_steps(persistent_id)
         workflow.steps = {
